@@ -347,6 +347,10 @@ def panels(phase):
          hier([(0, 4)], [(0, 1), (1, 3), (3, 4)]), hlab(["a"], ["x", "y", "x"])),
         (hier([(0, 4)], [(0, 2), (2, 4)]), hlab(["a"], ["b", "c"]), hier([(0, 6)], [(0, 3), (3, 6)]), hlab(["a"], ["b", "c"])),
         (hier([(0, 4)]), hlab(["a"]), hier([(0, 4)], [(0, 2), (2, 4)]), hlab(["a"], ["b", "b"])),
+        # longer than the default 15 s T-measure window: window=None (whole track) differs from the default
+        (hier([(0, 20)], [(0, 8), (8, 20)], [(0, 4), (4, 8), (8, 14), (14, 20)]),
+         hlab(["a"], ["b", "c"], ["d", "e", "f", "g"]),
+         hier([(0, 20)], [(0, 5), (5, 20)], [(0, 5), (5, 12), (12, 20)]), hlab(["a"], ["x", "y"], ["p", "q", "r"])),
     ]
     return P
 
@@ -372,7 +376,9 @@ KW = {
 }
 EXTRA = {"transcription": [{"offset_ratio": None}, {"offset_ratio": None, "strict": True}],
          "transcription_velocity": [{"offset_ratio": None}],
-         "pattern": [{"n": 5}, {"n": 2, "thres": 0.5}]}
+         "pattern": [{"n": 5}, {"n": 2, "thres": 0.5}],
+         # None is a documented value (window=None: the whole track), not "keyword absent"
+         "hierarchy": [{"window": None}, {"window": None, "frame_size": 0.5}]}
 
 EVAL = {"beat": beat.evaluate, "onset": onset.evaluate, "tempo": tempo.evaluate, "key": key.evaluate,
         "alignment": alignment.evaluate, "melody": melody.evaluate, "multipitch": multipitch.evaluate,
@@ -516,8 +522,11 @@ def _reset_modules():
                 v.cache_clear()
 
 
+PRELUDE_PANEL = {"hierarchy": 1}      # a short non-trivial panel (the last hierarchy panel is the 20 s track)
+
+
 def run_prelude(prev, phase):
-    makers = panels(phase)[prev][-1]
+    makers = panels(phase)[prev][PRELUDE_PANEL.get(prev, -1)]
     with warnings.catch_warnings():
         warnings.simplefilter("ignore")
         try:
